@@ -2,7 +2,8 @@
 # usage: seed_store.py <id> <src seed_out dir> <caught|missed|...> <detail>
 import sys, os, json, shutil
 pid, src, res, detail = sys.argv[1:5]
-dst = f'/verif/seeded/{pid}'
+sub = sys.argv[5] if len(sys.argv) > 5 else ''
+dst = f'/verif/seeded/{pid}' + ('/' + sub if sub else '')
 os.makedirs(dst, exist_ok=True)
 for f in os.listdir(src):
     shutil.copy(os.path.join(src, f), os.path.join(dst, f))
